@@ -46,6 +46,10 @@ func (m *Machine) callForeign(caller *frame, pos token.Pos, fn *ssa.Function, ar
 		m.foreign[name]++
 		return f(m, caller, pos, args)
 	}
+	if f, ok := bufferTab[name]; ok {
+		m.foreign[name]++
+		return f(m, caller, pos, args)
+	}
 	if f, ok := vfsTab[name]; ok {
 		m.foreign[name+" (virtual FS)"]++
 		return f(m, caller, pos, args)
@@ -1300,6 +1304,25 @@ func init() {
 		"os.Environ":                fEnviron,
 		"strconv.ParseBool":         fParseBool,
 		"strconv.ParseInt":          fParseInt,
+		"strconv.FormatFloat": func(m *Machine, fr *frame, pos token.Pos, args []value) value {
+			if sv, ok := args[0].(symv); ok && sv.K == types.Float64 {
+				f, okf := args[1].(uint8)
+				p, okp := intBits(args[2])
+				b, okb := intBits(args[3])
+				if okf && okp && okb && f == 'g' && int64(p) == -1 && b == 64 {
+					return numLit{isFloat: true, T: sv.T, gText: true}
+				}
+			}
+			return m.callNativeGeneric("strconv.FormatFloat", strconv.FormatFloat, pos, args)
+		},
+		"strconv.FormatInt": func(m *Machine, fr *frame, pos token.Pos, args []value) value {
+			if sv, ok := args[0].(symv); ok && isIntKind(sv.K) {
+				if b, okb := intBits(args[1]); okb && b == 10 {
+					return numLit{isFloat: false, T: m.st.SExt(sv.T, 64)}
+				}
+			}
+			return m.callNativeGeneric("strconv.FormatInt", strconv.FormatInt, pos, args)
+		},
 		"strconv.ParseFloat":        fParseFloat,
 		"(*gopkg.in/yaml.v3.Node).ShortTag": fYamlShortTag,
 		"path/filepath.Base":        fFilepathBase,
@@ -1465,11 +1488,22 @@ func fRegexpReplaceAllStringFunc(m *Machine, fr *frame, pos token.Pos, args []va
 type numLit struct {
 	isFloat bool
 	T       *sym.Term // BV64 or FP64
+	// gText: the text was produced by strconv.FormatFloat(x, 'g', -1, 64):
+	// an integral value below 1e6 in magnitude is spelled without point or
+	// exponent (and parses as an integer); everything else has one.
+	gText bool
 }
 
 func (m *Machine) parseIntLit(l numLit, bits int) value {
 	st := m.st
 	if l.isFloat {
+		if l.gText {
+			integral := st.And(st.Not(st.FIsNaN(l.T)), st.Not(st.FIsInf(l.T)),
+				st.FEq(st.FRTI(l.T), l.T), st.FLt(st.FAbs(l.T), st.FPC(1e6)))
+			if m.decide(integral) {
+				return tuple{m.unsym(st.FToSBV(l.T, 64), types.Int64), iface{}}
+			}
+		}
 		return tuple{int64(0), m.mkErr("strconv.ParseInt: invalid syntax", false)}
 	}
 	if bits == 0 || bits == 64 {
@@ -1554,6 +1588,83 @@ func fYamlShortTag(m *Machine, fr *frame, pos token.Pos, args []value) value {
 	n := yaml.Node{Kind: yaml.ScalarNode, Tag: tag}
 	return n.ShortTag()
 }
+
+// ---- strings.Builder / bytes.Buffer (state kept per object address) ----
+
+func (m *Machine) bufOf(v value) *[]*sym.Term {
+	p, ok := v.(*value)
+	if !ok || p == nil {
+		unsupported("builder/buffer receiver %T", v)
+	}
+	if m.bufs == nil {
+		m.bufs = map[*value]*[]*sym.Term{}
+	}
+	b, ok := m.bufs[p]
+	if !ok {
+		b = &[]*sym.Term{}
+		m.bufs[p] = b
+	}
+	return b
+}
+
+func init() {
+	for _, recv := range []string{"(*strings.Builder)", "(*bytes.Buffer)"} {
+		r := recv
+		bufferTab[r+".WriteString"] = func(m *Machine, fr *frame, pos token.Pos, a []value) value {
+			b := m.bufOf(a[0])
+			t, ok := m.strTerms(a[1])
+			if !ok {
+				unsupported("%s.WriteString(%T)", r, a[1])
+			}
+			*b = append(*b, t...)
+			return tuple{len(t), iface{}}
+		}
+		bufferTab[r+".WriteByte"] = func(m *Machine, fr *frame, pos token.Pos, a []value) value {
+			b := m.bufOf(a[0])
+			*b = append(*b, m.term(a[1]))
+			return iface{}
+		}
+		bufferTab[r+".WriteRune"] = func(m *Machine, fr *frame, pos token.Pos, a []value) value {
+			b := m.bufOf(a[0])
+			rn, ok := a[1].(int32)
+			if !ok {
+				unsupported("%s.WriteRune(symbolic)", r)
+			}
+			t, _ := m.strTerms(string(rn))
+			*b = append(*b, t...)
+			return tuple{len(t), iface{}}
+		}
+		bufferTab[r+".Write"] = func(m *Machine, fr *frame, pos token.Pos, a []value) value {
+			b := m.bufOf(a[0])
+			bs, _ := a[1].([]value)
+			for _, e := range bs {
+				*b = append(*b, m.term(e))
+			}
+			return tuple{len(bs), iface{}}
+		}
+		bufferTab[r+".Len"] = func(m *Machine, fr *frame, pos token.Pos, a []value) value {
+			return len(*m.bufOf(a[0]))
+		}
+		bufferTab[r+".String"] = func(m *Machine, fr *frame, pos token.Pos, a []value) value {
+			return mkStr(*m.bufOf(a[0]))
+		}
+		bufferTab[r+".Reset"] = func(m *Machine, fr *frame, pos token.Pos, a []value) value {
+			*m.bufOf(a[0]) = nil
+			return nil
+		}
+		bufferTab[r+".Grow"] = func(m *Machine, fr *frame, pos token.Pos, a []value) value { return nil }
+		bufferTab[r+".Bytes"] = func(m *Machine, fr *frame, pos token.Pos, a []value) value {
+			b := *m.bufOf(a[0])
+			out := make([]value, len(b))
+			for i, t := range b {
+				out[i] = m.unsym(t, types.Uint8)
+			}
+			return out
+		}
+	}
+}
+
+var bufferTab = map[string]foreignFn{}
 
 // ---- encoding/base64, crypto/sha256, encoding/hex ----
 
